@@ -32,3 +32,4 @@ uint32_t pthread_cond_clockwait(void *cv, struct vmutex *m, uint32_t clock, void
 uint32_t pthread_cond_timedwait(void *cv, struct vmutex *m, void *abstime) { return pthread_cond_clockwait(cv, m, 0, abstime); }
 uint32_t pthread_cond_wait(void *cv, struct vmutex *m) { VERIF_CHECK(m->held, "condition wait without holding the mutex"); m->held = 0; verif_worker_step(1); m->held = 1; return 0; }
 void _ZNSt18condition_variable4waitERSt11unique_lockISt5mutexE(void *cv, void **lk) { pthread_cond_wait(cv, (struct vmutex *)lk[0]); }
+void _ZNSt6thread6_StateD2Ev(void *s) {}   /* std::thread::_State::~_State(): out-of-line, empty in libstdc++ */
